@@ -18,6 +18,10 @@ import Midgard.Proofs.Rinex3ObsHeader
 import Midgard.Spec.Rinex2ObsFile
 import Midgard.Proofs.Rinex2ObsEpoch
 import Midgard.Proofs.Rinex2ObsFx
+import Midgard.Proofs.Rinex2ObsEpochFx
+import Midgard.Proofs.Rinex2ObsBlocks
+import Midgard.Proofs.Rinex2ObsFile
+import Midgard.Proofs.Rinex2ObsText
 
 namespace Midgard.Props.C11
 open Midgard.Text Midgard.FixedCol Midgard.ChainParser Midgard.RinexObs Midgard.Decimal
@@ -547,12 +551,12 @@ example : (rows none tinyF).length = 3 ∧ (rows (some 30) tinyF).length = 2 ∧
 
 end File3
 
-/-! ### RINEX 2: the file level — measured, not proved
+/-! ### RINEX 2: the file level
 
 `Spec/Rinex2ObsFile.lean` gives the abstract RINEX 2 file (header records incl. `# / TYPES OF OBSERV` continuation,
 epochs with flag, satellite-list continuation lines beyond 12 satellites, five observations per line, all-blank
 lines), its writer, `wf` and `expected`.  The statement `wf F → readData … (fileLines F) = expected rate F` is
-**not proved** (proved parts: `obs_lines2`, `obs_line2`, `sats_list2` below); the driver evaluates this instance on every generated file (`c11 file2`), the rendered text is
+proved up to the evaluated header hypothesis `hdrOk2` (`file_roundtrip2_partial` below, with its parts); the driver evaluates this instance on every generated file (`c11 file2`), the rendered text is
 compared byte for byte with the independent writer and `expected` with the real parser.  One instance, evaluated by
 the kernel (seven types = two lines per satellite, the second line of the first satellite all blank): -/
 
@@ -621,6 +625,88 @@ theorem sat_lines2 (st : Midgard.Spec.Rinex3ObsFile.Style) (types : List Str) (m
       | .error err => .error err :=
   sat_lines_run st types m e q hq obs hl hpos hwf hsh s he sat rest hs hne num hnum hc h0
 
+/-- **RINEX 2: the epoch record.**  From the rendered record (as formatted, right-stripped or filled to 80 columns) the
+parser — which cuts the fields raw, three columns per integer — stores: the epoch string with the four-digit year (century
+of `TIME OF FIRST OBS` in front of the two printed digits), seconds of day (absent when the sampling rate decimates the
+epoch), flag, receiver clock offset, the printed satellite count, and the satellites printed on the record itself in
+order (blank system = `G`, blank tens digit = `0`); the record is labelled a non-observation line. -/
+theorem epoch_line2 (st : Midgard.Spec.Rinex3ObsFile.Style) (e : Midgard.Spec.Rinex2ObsFile.Epoch) (n : Nat)
+    (hwf : e.wf n = true) (k : Nat) (s : State) (t : Str) (y : Int)
+    (hfirst : s.metaD.get [key "time_first_obs"] = some (.text t)) (hyear : pyInt (t.take 2 ++ zfill 2 e.yy.text) = .ok y) :
+    parseLine obsParser (rstrip (Midgard.Spec.Rinex3ObsFile.styled st (Midgard.Spec.Rinex2ObsFile.epochLine e))) k s =
+      .ok (afterEpoch s (info2 s.rate y e) (digitsVal e.numSat : Int) ((ids12 e).map normSat)) :=
+  epoch_line_fx st e (epochOk_of_wf n e hwf) k s t y hfirst hyear
+
+/-- **RINEX 2: a continuation record of the satellite list** (32 blanks, up to 12 satellites) is labelled a
+non-observation line and appends its satellites to the epoch's list. -/
+theorem cont_line2 (st : Midgard.Spec.Rinex3ObsFile.Style) (c : List Str) (hne : c ≠ []) (hl : c.length ≤ 12)
+    (h : ∀ s ∈ c, SatOk s) (hs : SysStyle c) (n : Nat) (s : State) (old : List Str) (hold : s.cache.satList = some old) :
+    parseLine obsParser (rstrip (Midgard.Spec.Rinex3ObsFile.styled st (contLine c))) n s = .ok (afterCont s (old ++ c.map normSat)) :=
+  cont_line_fx st c hne hl h hs n s old hold
+
+/-- **RINEX 2: the end marker** "the next line is an epoch record" (digit in column 3, blank in column 4), evaluated on
+the lines as written: true for an epoch record, false for an observation line (right-aligned numbers: a digit is never
+followed by a blank) and for a continuation record. -/
+theorem end_marker2 (st : Midgard.Spec.Rinex3ObsFile.Style) :
+    (∀ (e : Midgard.Spec.Rinex2ObsFile.Epoch), EpochOk e → isEnd (Midgard.Spec.Rinex3ObsFile.styled st (Midgard.Spec.Rinex2ObsFile.epochLine e) ++ ['\n']) = true) ∧
+    (∀ (c : List Midgard.Spec.Rinex3ObsFile.Obs), c.all Midgard.Spec.Rinex3ObsFile.Obs.wf = true →
+      isEnd (Midgard.Spec.Rinex3ObsFile.styled st (obsLine c) ++ ['\n']) = false) ∧
+    (∀ (c : List Str), c ≠ [] → c.length ≤ 12 → (∀ s ∈ c, SatOk s) →
+      isEnd (Midgard.Spec.Rinex3ObsFile.styled st (contLine c) ++ ['\n']) = false) :=
+  ⟨fun e h => epochLine_end st e h, fun c h => obsLine_not_end st c h, fun c hne hl h => contLine_not_end st c hne hl h⟩
+
+/-- **RINEX 2: one epoch group** — epoch record, continuation records, five observations per line for every satellite —
+adds one row per satellite in order (none when the sampling rate decimates the epoch); `dataOf2` is the closed form of
+the columns. -/
+theorem block_run2' (st : Midgard.Spec.Rinex3ObsFile.Style) (ts : List Str) (hnd : ts.Nodup) (m t : Str) (H : State)
+    (hH : HF ts m t H) (e : Midgard.Spec.Rinex2ObsFile.Epoch) (he : EpochWf ts e) (y : Int)
+    (hy : pyInt (t.take 2 ++ zfill 2 e.yy.text) = .ok y) (rows : List Row) :
+    ∃ c, Midgard.Spec.Rinex2ObsFile.runObs ((blockLinesR e).map (Midgard.Spec.Rinex3ObsFile.styled st))
+        (mk2 H (dataOf2 ts (lower m) rows H.data) {}) =
+      .ok (mk2 H (dataOf2 ts (lower m) (rows ++ if Midgard.Spec.Rinex2ObsFile.kept H.rate e then e.sats.map (rowOfSat (info2 H.rate y e)) else []) H.data) c) :=
+  block_run2 st ts hnd m t H hH e he y hy rows
+
+/-- **RINEX 2: the data section.**  `read_data` over the rendered epoch groups (group boundaries found by the end
+marker) ends with one row per (kept epoch, satellite) in file order and an empty cache. -/
+theorem blocks_run2' (st : Midgard.Spec.Rinex3ObsFile.Style) (ts : List Str) (hnd : ts.Nodup) (m t : Str) (H : State)
+    (hH : HF ts m t H) (eps : List Midgard.Spec.Rinex2ObsFile.Epoch) (rows : List Row) (hw : ∀ e ∈ eps, EpochWf ts e)
+    (hy : ∀ e ∈ eps, ∃ y, pyInt (t.take 2 ++ zfill 2 e.yy.text) = .ok y) :
+    readData headerParser obsParser resetCache ((eps.flatMap blockLinesR).map (Midgard.Spec.Rinex3ObsFile.styled st)) false 0
+        (mk2 H (dataOf2 ts (lower m) rows H.data) {}) =
+      .ok (mk2 H (dataOf2 ts (lower m) (rows ++ rowsOf2 H.rate t eps) H.data) {}) :=
+  blocks_run2 st ts hnd m t H hH eps rows hw hy
+
+/-- **File-level round trip (RINEX 2).**  `read_data` on the lines of a rendered well-formed file ends in exactly
+`expected rate F`: header records line by line = the registered handler called with the printed cells (the parser's wider
+`RINEX VERSION / TYPE` and `# / TYPES OF OBSERV` fields included), `END OF HEADER` ends the header group, every epoch record
+starts a group (end marker "digit in column 3, blank in column 4"), satellite-list continuation records extend the list,
+five observations per line are collected until `num_obstypes` are there (all-blank lines through `_parse_observation_epoch`),
+and the data are one column per observation type with one entry per (epoch on the sampling grid, satellite) in file order,
+four-digit years, satellites named with system `G` and tens digit `0` where blank.
+Partial: what the data section needs from the header state (`num_obstypes`, the type list, marker name, `TIME OF FIRST OBS`
+with a readable century, empty columns: `hdrOk2`) is a hypothesis *evaluated* on the header's values; the full statement is the
+same without `hh` (value-level reasoning on the RINEX 2 header handlers, as done for RINEX 3 in `Proofs/Rinex3ObsHeader.lean`). -/
+theorem file_roundtrip2_partial (rate : Option Rat) (F : Midgard.Spec.Rinex2ObsFile.File) (hwf : F.wf = true)
+    (hh : hdrOk2 rate F = true) :
+    readData headerParser obsParser resetCache (Midgard.Spec.Rinex2ObsFile.fileLines F) true 0 { rate := rate } =
+      Midgard.Spec.Rinex2ObsFile.expected rate F :=
+  file2_of_hdrOk rate F hwf hh
+
+/-- the text of a rendered well-formed RINEX 2 file splits into the rendered lines -/
+theorem lines_of_render2 (F : Midgard.Spec.Rinex2ObsFile.File) (hwf : F.wf = true) :
+    ChainParser.fileLines (Midgard.Spec.Rinex2ObsFile.render F) = Midgard.Spec.Rinex2ObsFile.fileLines F :=
+  lines_render2 F hwf
+
+/-- **`Rinex2Parser(text of F, sampling_rate).parse()`** is `expected rate F` followed by the post-processors -/
+theorem parse_render2_partial (rate : Option Rat) (F : Midgard.Spec.Rinex2ObsFile.File) (hwf : F.wf = true)
+    (hh : hdrOk2 rate F = true) :
+    parseText rate (Midgard.Spec.Rinex2ObsFile.render F) = match Midgard.Spec.Rinex2ObsFile.expected rate F with
+      | .ok s => finish s
+      | .error e => .error e := by
+  unfold parseText parseLines
+  rw [lines_render2 F hwf, file2_of_hdrOk rate F hwf hh]
+  cases Midgard.Spec.Rinex2ObsFile.expected rate F <;> rfl
+
 def tiny2F : Midgard.Spec.Rinex2ObsFile.File :=
   let c (t : String) (v : Option Rat) : Cell := ⟨t.toList, v⟩
   let i (t : String) (v : Int) : IntCell := ⟨t.toList, v⟩
@@ -636,7 +722,7 @@ def tiny2F : Midgard.Spec.Rinex2ObsFile.File :=
                  ⟨"R21".toList, [o "21119353.719" (21119353719 / 1000), b, b, b, o "-1784.992" (-1784992 / 1000), o "49.300" (493 / 10), b]⟩] }],
     style := .stripped }
 
-example : tiny2F.wf = true ∧
+example : tiny2F.wf = true ∧ hdrOk2 none tiny2F = true ∧
     (readData headerParser obsParser resetCache (Midgard.Spec.Rinex2ObsFile.fileLines tiny2F) true 0 {}).toOption =
       (Midgard.Spec.Rinex2ObsFile.expected none tiny2F).toOption ∧
     ((Midgard.Spec.Rinex2ObsFile.expected none tiny2F).toOption.map fun s => (s.data.satellite, s.data.time)) =
@@ -682,3 +768,11 @@ end Midgard.Props.C11
 #print axioms Midgard.Props.C11.obs_text2
 #print axioms Midgard.Props.C11.label_of_obs_line2
 #print axioms Midgard.Props.C11.sat_lines2
+#print axioms Midgard.Props.C11.epoch_line2
+#print axioms Midgard.Props.C11.cont_line2
+#print axioms Midgard.Props.C11.end_marker2
+#print axioms Midgard.Props.C11.block_run2'
+#print axioms Midgard.Props.C11.blocks_run2'
+#print axioms Midgard.Props.C11.file_roundtrip2_partial
+#print axioms Midgard.Props.C11.lines_of_render2
+#print axioms Midgard.Props.C11.parse_render2_partial
